@@ -2257,3 +2257,65 @@ silent_multi("c07-importer-lambda-entries", ["C07", "C13"], IA, [
      "            ast.BitOr: lambda x, y: p.BitwiseOr((x, y)),\n"
      "            ast.BitXor: lambda x, y: p.BitwiseXor((x, y)),\n"
      "            ast.BitAnd: lambda x, y: p.BitwiseAnd((x, y)),\n")])
+
+fire("c10-entry-setting-not-passed", ["C10"], DIF,
+     "        variable, func_mapper, allowed_nonsmoothness=allowed_nonsmoothness\n",
+     "        variable, func_mapper\n",
+     "P/differentiate/entry")
+fire("c10-entry-variable-not-normalised", ["C10"], DIF,
+     "        variable = primitives.make_variable(variable)\n",
+     "        variable = str(variable)\n",
+     "P/differentiate/entry")
+silent("c10-entry-positional-setting", ["C10"], DIF,
+       "    return DifferentiationMapper(\n"
+       "        variable, func_mapper, allowed_nonsmoothness=allowed_nonsmoothness\n"
+       "        )(expression)",
+       "    mapper = DifferentiationMapper(variable, func_mapper,\n"
+       "                                   allowed_nonsmoothness)\n"
+       "    return mapper(expression)")
+fire("c10-init-accepts-unknown-setting", ["C10"], DIF,
+     "        if allowed_nonsmoothness not in [\"none\", \"continuous\", \"discontinuous\"]:",
+     "        if allowed_nonsmoothness not in [\"none\", \"continuous\", \"discontinuous\",\n"
+     "                                         \"any\"]:",
+     "P/__init__/setting-validated")
+
+silent("c09-combine-union-star", ["C09"], MI,
+       "        from functools import reduce\n"
+       "        return reduce(operator.or_, values, set())",
+       "        return set().union(*values)")
+silent("c09-combine-loop", ["C09"], MI,
+       "        from functools import reduce\n"
+       "        return reduce(operator.or_, values, set())",
+       "        result = set()\n"
+       "        for value in values:\n"
+       "            result |= value\n"
+       "        return result")
+fire("c09-combine-no-start", ["C09"], MI,
+     "        return reduce(operator.or_, values, set())",
+     "        return reduce(operator.or_, values)",
+     "K/DependencyMapper/combine")
+fire("c09-combine-intersection", ["C09"], MI,
+     "        return reduce(operator.or_, values, set())",
+     "        return reduce(operator.and_, values, set())",
+     "K/DependencyMapper/combine")
+
+fire("c12-usecount-increment-by-two", ["C12"], CSF,
+     "            self.subexpr_counts[key] += 1\n",
+     "            self.subexpr_counts[key] += 2\n",
+     "P/UseCountMapper.visit/counts")
+silent("c12-usecount-get-form", ["C12"], CSF,
+       "            self.subexpr_counts[key] += 1\n",
+       "            self.subexpr_counts[key] = self.subexpr_counts[key] + 1\n")
+fire("c12-keygetter-count-overwritten", ["C12"], CSF,
+     "kid_count[child] = kid_count.get(child, 0) + 1",
+     "kid_count[child] = 1",
+     "T/NormalizedKeyGetter/counts-every-child")
+silent_multi("c12-keygetter-renamed-table", ["C12"], CSF, [
+    ("kid_count = {}", "multiplicity = {}"),
+    ("kid_count[child] = kid_count.get(child, 0) + 1",
+     "multiplicity[child] = multiplicity.get(child, 0) + 1"),
+    ("frozenset(kid_count.items())", "frozenset(multiplicity.items())")])
+fire("c12-histogram-not-incremented", ["C12"], TGF,
+     "self.subexpr_histogram.get(expr, 0) + 1",
+     "self.subexpr_histogram.get(expr, 1)",
+     "P/CSEWalkMapper.visit/histogram")
